@@ -45,3 +45,107 @@ Theorem C13_ranges_partition : forall (ks : list key) n,
      shard_index_for n (child_of (nth j ks d)) = i).
 Proof. exact Shards_proofs.ranges_partition. Qed.
 Print Assumptions C13_ranges_partition.
+
+(* ---- independent of the split policy: ANY list of regions accepted by regions_okb ---- *)
+From Nomt Require Import ShardsGen ShardsGen_proofs.
+
+Theorem C13_regions_okb_sound : forall regs, regions_okb regs = true ->
+  let n := length regs in
+  (* between 1 and 64 regions *)
+  1 <= n <= 64 /\
+  (* every region is a non-empty run of root children below 64 ... *)
+  (forall i, i < n -> 1 <= count_of regs i /\ start_of regs i + count_of regs i <= 64) /\
+  (* ... given by the min key of its first child, the max key of its last child, its count *)
+  (forall i, i < n ->
+     nth i regs dummy_region =
+       (min_key (start_of regs i), max_key (start_of regs i + count_of regs i - 1),
+        count_of regs i)) /\
+  (* contiguous, in order, from child 0 to child 63 *)
+  start_of regs 0 = 0 /\
+  (forall i, S i < n -> start_of regs (S i) = start_of regs i + count_of regs i) /\
+  start_of regs (n - 1) + count_of regs (n - 1) = 64 /\
+  (* pairwise disjoint *)
+  (forall i j, i < j -> j < n -> start_of regs i + count_of regs i <= start_of regs j) /\
+  (* index_of_child is the index of THE region containing the child *)
+  (forall c, c < 64 ->
+     index_of_child regs c < n /\
+     start_of regs (index_of_child regs c) <= c
+       < start_of regs (index_of_child regs c) + count_of regs (index_of_child regs c)) /\
+  (forall c i, c < 64 -> i < n ->
+     start_of regs i <= c < start_of regs i + count_of regs i -> index_of_child regs c = i).
+Proof. exact ShardsGen_proofs.regions_okb_sound. Qed.
+Print Assumptions C13_regions_okb_sound.
+
+(* the boolean accepts exactly the splits into positive child counts that add up to 64 *)
+Theorem C13_regions_okb_counts : forall regs, regions_okb regs = true ->
+  regs = regions_of_counts (map region_count regs) /\
+  Forall (fun c => 1 <= c) (map region_count regs) /\
+  list_sum (map region_count regs) = 64.
+Proof. exact ShardsGen_proofs.regions_okb_counts. Qed.
+Print Assumptions C13_regions_okb_counts.
+
+Theorem C13_regions_of_counts_ok : forall cs,
+  cs <> nil -> Forall (fun c => 1 <= c) cs -> list_sum cs = 64 ->
+  regions_okb (regions_of_counts cs) = true.
+Proof. exact ShardsGen_proofs.regions_of_counts_ok. Qed.
+Print Assumptions C13_regions_of_counts_ok.
+
+Theorem C13_ranges_partition_gen : forall (regs : list region) (ks : list key),
+  regions_okb regs = true ->
+  sorted_keys ks = true ->
+  (forall k, In k ks -> length k = 256) ->
+  let n := length regs in
+  (* one [start, end) interval per worker, computed as in RangeUpdater::new *)
+  ranges_of regs ks =
+    map (fun i => (gen_range_start regs ks i, gen_range_end regs ks i)) (seq 0 n) /\
+  (* the intervals are consecutive, start at 0 and end at the batch length *)
+  gen_range_start regs ks 0 = 0 /\
+  (forall i, S i < n -> gen_range_end regs ks i = gen_range_start regs ks (S i)) /\
+  gen_range_end regs ks (n - 1) = length ks /\
+  (forall i, i < n -> gen_range_start regs ks i <= gen_range_end regs ks i <= length ks) /\
+  (* every key lies in the interval of the region that contains its root child ... *)
+  (forall j d, j < length ks ->
+     let s := index_of_child regs (child_of (nth j ks d)) in
+     s < n /\ gen_range_start regs ks s <= j < gen_range_end regs ks s) /\
+  (* ... and an interval holds only keys of its region *)
+  (forall i j d, i < n -> gen_range_start regs ks i <= j < gen_range_end regs ks i ->
+     index_of_child regs (child_of (nth j ks d)) = i).
+Proof. exact ShardsGen_proofs.ranges_partition_gen. Qed.
+Print Assumptions C13_ranges_partition_gen.
+
+(* the mirror of the present policy is one such split *)
+Theorem C13_shards_mirror_ok : forall n, 1 <= n <= 64 -> regions_okb (shard_regions n) = true.
+Proof. exact ShardsGen_proofs.shards_mirror_ok. Qed.
+Print Assumptions C13_shards_mirror_ok.
+
+Theorem C13_shards_mirror_instance : forall n, 1 <= n <= 64 ->
+  length (shard_regions n) = n /\
+  (forall i, i < n -> start_of (shard_regions n) i = shard_start n i /\
+                      count_of (shard_regions n) i = shard_count n i) /\
+  (forall c, c < 64 -> index_of_child (shard_regions n) c = shard_index_for n c) /\
+  (forall ks, ranges_of (shard_regions n) ks = ranges ks n) /\
+  (forall ks i, gen_range_start (shard_regions n) ks i = range_start ks n i /\
+                gen_range_end (shard_regions n) ks i = range_end ks n i).
+Proof. exact ShardsGen_proofs.shards_mirror_instance. Qed.
+Print Assumptions C13_shards_mirror_instance.
+
+(* another valid split (the remainder 64 % n given to the LAST shards) and invalid ones *)
+Theorem C13_remainder_last_ok :
+  forallb (fun n => regions_okb (shard_regions_last n) && Nat.eqb (length (shard_regions_last n)) n)
+    (seq 1 64) = true.
+Proof. exact ShardsGen_proofs.remainder_last_ok. Qed.
+Print Assumptions C13_remainder_last_ok.
+
+Theorem C13_uneven_ok : regions_okb (regions_of_counts (1 :: 62 :: 1 :: nil)) = true.
+Proof. exact ShardsGen_proofs.uneven_ok. Qed.
+Print Assumptions C13_uneven_ok.
+
+Theorem C13_reject_gap :
+  regions_okb ((min_key 0, max_key 0, 1) :: (min_key 2, max_key 63, 62) :: nil) = false.
+Proof. exact ShardsGen_proofs.reject_gap. Qed.
+Print Assumptions C13_reject_gap.
+
+Theorem C13_reject_overlap :
+  regions_okb ((min_key 0, max_key 31, 32) :: (min_key 31, max_key 63, 33) :: nil) = false.
+Proof. exact ShardsGen_proofs.reject_overlap. Qed.
+Print Assumptions C13_reject_overlap.
